@@ -1,6 +1,7 @@
 (** C02 — property theorems only (the model and the specification are C01's). *)
 From V Require Import Base.Util Gql.Ast Writer.Wop Ts.TsType Ts.TsDen
-     C01.Model C01.Spec C01.Corr C01.Witness C01.Proofs C01.Refuted.
+     C01.Model C01.Spec C01.Corr C01.Witness C01.Proofs C01.Refuted C01.TsLemmas C01.TreeDen C01.EnvDen
+     C01.PlainBase C01.PlainCore C01.PlainSchema C01.PlainFinal.
 
 (** the current code violates C02 on the property text's witness (not merge_safe) *)
 Theorem C02_merge_unsafe_refuted :
@@ -26,3 +27,24 @@ Theorem C02_ref_local_in_relaxed : forall S F cf fuel T sels v,
   ref_local_b S F cf fuel T sels v = true -> ref_local_relaxed_b S F cf fuel T sels v = true.
 Proof. exact ref_local_in_relaxed. Qed.
 Print Assumptions C02_ref_local_in_relaxed.
+
+(** C02 on plain definitions (see C01_emit_eq_ref_local_partial for the guard): whatever JSON value
+    the emitted type admits is in Ref_local *)
+Theorem C02_not_looser_partial : forall S D d T sels t v,
+  nodup_types S = true -> def_target S d = Some (T, sels) -> plain_list sels = true ->
+  emit_type default_options S D d = Ok t ->
+  (forall tree, def_tree S D d = Ok tree -> tree_ok S tree = true) ->
+  json v = true ->
+  In_type (schema_env S) t v ->
+  exists f, ref_local_b S (sp_frags D) (doc_fuel D) f T sels v = true.
+Proof. exact not_looser_partial. Qed.
+Print Assumptions C02_not_looser_partial.
+
+(** to_ts.rs is denotation-preserving for every selection tree (leaf mapping with wrapper-exact
+    nullability, __typename literal, `x?: never`, keys surviving Extract<keyof Orig, keyof Obj>) *)
+Theorem C02_emitted_type_denotes_tree : forall S t v,
+  leaves_ok (sp_leaf_ok S) (sp_obj_ok S) t = true ->
+  (In_type (schema_env S) (generate_selection_tree_type NS t) v
+   <-> tree_den (sp_named S) (sp_obj_keys S) t false v = true).
+Proof. exact emitted_type_den. Qed.
+Print Assumptions C02_emitted_type_denotes_tree.
